@@ -340,8 +340,9 @@ def origins(du: DefUse, n: Node, e: ast.AST, path=(), _seen=None, depth: int = 0
     if isinstance(e, ast.Attribute) and isinstance(e.value, ast.Name):
         # a field of a local object that was assigned in this function (`obj.f = v` ... `obj.f`), also through an
         # alias of the object (`r = obj` ... `r.f`)
-        cands = [dotted(e)]
-        for o in origins(du, n, e.value, (), set(), depth + 1):
+        # (not for self/cls: what an attribute of self holds may stem from an earlier call)
+        cands = [dotted(e)] if e.value.id not in ("self", "cls") else []
+        for o in (origins(du, n, e.value, (), set(), depth + 1) if e.value.id not in ("self", "cls") else []):
             if o.kind == "expr" and isinstance(o.leaf, ast.Call) and isinstance(o.leaf.func, ast.Name) and o.leaf.func.id == "__new__" \
                     and len(o.leaf.args) == 2 and isinstance(o.leaf.args[1], ast.Constant):
                 cands.append("%s.%s" % (o.leaf.args[1].value, e.attr))
